@@ -1,5 +1,7 @@
 SPECIFICATION Spec
 CONSTANTS
+  StepRecovery = FALSE
+  RCrashes = 0
   Order <- One
   MarkersFirst = TRUE
 INVARIANTS CountInBounds ClosedClean RecoveredClean
